@@ -80,6 +80,19 @@ fn programs(ctx: &Ctx) -> Vec<Prog> {
         let p = corpus::b_program(shard, i);
         v.push(Prog { id: p.id, src: p.src, path: None, modules: BTreeMap::new(), calls: vec![] });
     }
+    // composed programs whose numeric literals are read from the host: dozens of orders per run
+    {
+        use super::c07;
+        let (shards, per): (Vec<u64>, u64) = if ctx.thorough() { ((0..c07::COMPOSED_SHARDS).collect(), 16) } else { (vec![ctx.seed % c07::COMPOSED_SHARDS], 24) };
+        for sh in shards {
+            for i in 0..per {
+                if let Some(c) = c07::composed_case(sh, i, (i + 1) % 3) {
+                    let path = if i % 2 == 0 { None } else { Some("/app/awaits.ts".to_string()) };
+                    v.push(Prog { id: c.id, src: crate::asynchost::program(&c.body, true), path, modules: BTreeMap::new(), calls: vec![] });
+                }
+            }
+        }
+    }
     // the same composed programs as modules (path given): completion value and exports
     for i in 0..n / 4 {
         let p = corpus::b_program(shard, i);
@@ -231,6 +244,9 @@ fn judge(r: &mut UnitResult, progs: &[Prog]) {
         }
         if traces[0].contains("need-imports") {
             r.stat("programs_with_import_requests", 1);
+        }
+        if traces[0].contains("host: giving up") {
+            r.stat("programs_cut_by_round_budget", 1);
         }
         if traces[0].contains("suspended pending") {
             r.stat("programs_with_order_traffic", 1);
